@@ -289,4 +289,65 @@ Section ScopesProofs.
     exists extra, cs, l. split; [reflexivity|]. split; [exact Ep|]. split; [exact E1|]. split; [exact E3|].
     split; [intros k Hk; apply E1; now apply Hex|]. intros c Hc k Hk. apply E1. exact (Hcs c Hc k Hk).
   Qed.
+
+  (** ** the recorded keys are the keys the one-pattern matcher asks for (as sets): the
+      pattern's own required bindings, the arguments of its constraints, and their transitive
+      prerequisites — [pattern_keys] computes them constraint by constraint, [requested]
+      (single_pattern.rs) in one call of all_missing_bindings *)
+  Notation kn known := (fun x => In x known).
+
+  Lemma closure_through_closed (rb : list K) key x : closed rb ->
+    closure (req D) (kn []) key x -> In x rb \/ closure (req D) (kn rb) key x.
+  Proof.
+    intros Hcl C. induction C as [_|k r C IH Hr _].
+    - destruct (memb (keqb D) key rb) eqn:E; [left; now apply mem_in|right; constructor; now apply mem_nin].
+    - destruct IH as [Hk|Ck]; [left; exact (Hcl k Hk r Hr)|].
+      destruct (memb (keqb D) r rb) eqn:E; [left; now apply mem_in|right].
+      eapply cl_step; eauto. now apply mem_nin.
+  Qed.
+
+  Lemma pattern_keys_loop_set fuel : forall cs rb l keys0, po rb ->
+    (forall x, In x rb <-> closure_list (req D) (kn []) keys0 x) ->
+    pattern_keys_loop D fuel cs rb = Ok l ->
+    forall x, In x l <-> closure_list (req D) (kn []) (keys0 ++ flat_map cargs cs) x.
+  Proof.
+    induction cs as [|c cs IH]; intros rb l keys0 Hrb Hset E; cbn [pattern_keys_loop] in E.
+    - inversion E; subst. cbn [flat_map]. rewrite app_nil_r. exact Hset.
+    - destruct (amb_known D fuel (cargs c) rb) as [ext| |] eqn:Ea; cbn [rbind] in E; try discriminate.
+      destruct (po_extend fuel _ _ _ Hrb Ea) as [Hpo _].
+      unfold amb_known in Ea.
+      destruct (all_missing_ok (keqb D) (req D) keq fuel (cargs c) rb ext Hacyc Ea) as [_ [Hext _]].
+      cbn [flat_map]. rewrite app_assoc.
+      apply (IH (rb ++ ext) l (keys0 ++ cargs c) Hpo); [|exact E].
+      intros x. rewrite in_app_iff, Hset, Hext. split.
+      + intros [[key [Hk C]]|[key [Hk C]]].
+        * exists key. split; [apply in_or_app; now left|exact C].
+        * exists key. split; [apply in_or_app; now right|].
+          eapply (closure_mono (req D)); [|exact C]. intros y [].
+      + intros [key [Hk C]]. apply in_app_or in Hk as [Hk|Hk]; [left; exists key; auto|].
+        destruct (closure_through_closed rb key x (po_closed rb Hrb) C) as [Hin|C'].
+        * left. now apply Hset.
+        * right. exists key. auto.
+  Qed.
+
+  Theorem pattern_keys_set fuel extra cs l : pattern_keys D fuel extra cs = Ok l ->
+    forall x, In x l <-> closure_list (req D) (kn []) (extra ++ flat_map cargs cs) x.
+  Proof.
+    unfold pattern_keys. intros E.
+    destruct (amb_known D fuel extra []) as [rb0| |] eqn:E0; cbn [rbind] in E; try discriminate.
+    destruct (po_extend fuel _ _ _ po_nil E0) as [Hpo _]. cbn [app] in Hpo.
+    unfold amb_known in E0.
+    destruct (all_missing_ok (keqb D) (req D) keq fuel extra [] rb0 Hacyc E0) as [_ [Hset _]].
+    exact (pattern_keys_loop_set fuel cs rb0 l extra Hpo Hset E).
+  Qed.
+
+  Corollary pattern_keys_same_as_requested fuel fuel' extra (cs : list C) l l' :
+    pattern_keys D fuel extra cs = Ok l ->
+    all_missing_bindings (keqb D) (req D) fuel' (extra ++ flat_map cargs cs) [] = Ok l' ->
+    forall x, In x l <-> In x l'.
+  Proof.
+    intros E E' x. rewrite (pattern_keys_set fuel extra cs l E x).
+    destruct (all_missing_ok (keqb D) (req D) keq fuel' _ [] l' Hacyc E') as [_ [Hset _]].
+    symmetry. apply Hset.
+  Qed.
 End ScopesProofs.
